@@ -250,6 +250,12 @@ impl IpTransport {
         self.config.into()
     }
 
+    /// The configuration this transport was bound with.
+    #[cfg(feature = "verif-hooks")]
+    pub(super) fn verif_config(&self) -> Config {
+        self.config
+    }
+
     pub(super) fn create_network_change_sender(&self) -> IpNetworkChangeSender {
         IpNetworkChangeSender {
             socket: self.socket.clone(),
